@@ -1154,7 +1154,7 @@ def pop_until_html_element(ctx):
         if {f.fq for f, n in nodes.values()} & inserters:
             foreign_phases.add(key)
     n = 0
-    for key in sorted(foreign_phases - {"inBody"}):
+    for key in sorted(foreign_phases):
         cls = pm.phases[key]
         for m in cls.methods.values():
             for w in walk_no_nested(m.node):
